@@ -272,7 +272,9 @@ func newRows(result *updog.Result, groupBy []string) *rows {
 		cols: append(groupBy, "count"),
 	}
 
-	if len(result.Groups) > 0 {
+	// a query with a group-by clause yields one row per group (none if no group matched);
+	// only a query without group-by yields the single row holding the total count.
+	if len(groupBy) > 0 {
 		for _, rr := range result.Groups {
 			fields := []string{}
 			for _, f := range rr.Fields {
